@@ -44,7 +44,11 @@ func (in *Interp) args(c *gt.T) ([]Val, *RunErr) {
 		if err := in.need(v, a); err != nil {
 			return nil, err
 		}
-		out = append(out, Val{Copy(v.V), v.T})
+		cp, big := CopyN(v.V)
+		if big {
+			panic(TooBig{})
+		}
+		out = append(out, Val{cp, v.T})
 	}
 	return out, nil
 }
@@ -73,7 +77,11 @@ func probeT(in *Interp, c *gt.T) (Val, *RunErr) {
 	if err := in.need(v, c.Kids[1]); err != nil {
 		return Void, err
 	}
-	in.Shared.Events = append(in.Shared.Events, Event{Kind: "t", Script: in.Name, ID: id.V, Vals: []Val{{Copy(v.V), v.T}}})
+	cp, big := CopyN(v.V)
+	if big {
+		panic(TooBig{})
+	}
+	in.Shared.Events = append(in.Shared.Events, Event{Kind: "t", Script: in.Name, ID: id.V, Vals: []Val{{cp, v.T}}})
 	return v, nil
 }
 
